@@ -286,6 +286,37 @@ func formRenderer(p *Prog, fn *ssa.Function, depth int) bool {
 func checkBodyWrites(r *Report, p *Prog) {
 	rule := "C14.body-writes"
 	n := 0
+	// escaped output is written as it is: handing it to a formatted print as the *format* re-reads every '%' in it (and a
+	// relay state or URL contains them) as a verb, which rewrites attribute values after html/template has escaped them
+	for _, fn := range libFunctions(p) {
+		if hasWriterParam(fn) < 0 {
+			continue
+		}
+		for _, b := range fn.Blocks {
+			for _, in := range b.Instrs {
+				c, ok := in.(*ssa.Call)
+				if !ok || c.Call.StaticCallee() == nil {
+					continue
+				}
+				fi := -1
+				switch c.Call.StaticCallee().String() {
+				case "fmt.Fprintf":
+					fi = 1
+				case "fmt.Sprintf", "fmt.Printf":
+					fi = 0
+				}
+				if fi < 0 || fi >= len(c.Call.Args) {
+					continue
+				}
+				if _, isConst := c.Call.Args[fi].(*ssa.Const); isConst {
+					continue
+				}
+				n++
+				r.Fn(p.FnName(fn))
+				r.Bad(rule, fmt.Sprintf("%s: formatted print with a constant format", p.FnName(fn)), p.InstrPos(in), "the format string of "+c.Call.StaticCallee().String()+" is not a constant in a function that writes a response: rendered (escaped) text is re-interpreted as printf verbs, so a '%' in a peer-controlled value changes the emitted markup")
+			}
+		}
+	}
 	for _, fn := range libFunctions(p) {
 		if hasWriterParam(fn) < 0 {
 			continue
